@@ -707,11 +707,9 @@ def apply_indices_to_index_values(indices_to_apply, indices, values):
 
 def get_spans_for_field(ndarray):
     results = np.zeros(len(ndarray) + 1, dtype=bool)
-    if np.issubdtype(ndarray.dtype, np.number):
-        fn = np.not_equal
-    else:
-        fn = np.char.not_equal
-    results[1:-1] = fn(ndarray[:-1], ndarray[1:])
+    # element-wise '!=' is exact for every dtype (np.char.not_equal strips trailing
+    # whitespace before comparing and rejects bool arrays)
+    results[1:-1] = ndarray[:-1] != ndarray[1:]
 
     results[0] = True
     results[-1] = True
